@@ -81,7 +81,11 @@ func (in *Interp) unop(f *Frame, ins *ssa.UnOp) Value {
 	ts := in.ts
 	switch ins.Op {
 	case token.MUL:
-		return in.load(x)
+		v := in.load(x)
+		if v == nil {
+			return in.zero(ins.Type()) // only on paths where the dereference already failed its check
+		}
+		return v
 	case token.ARROW:
 		return in.chanRecv(f, x, ins.CommaOk, ins.X.Type().Underlying().(*types.Chan).Elem())
 	case token.NOT:
